@@ -103,11 +103,13 @@ pub fn decode_weight(wmode: u8, r: u8) -> f64 {
         // weights symmetric around 1: sums coincide with counts, means with 1
         8 => [0.5, 1.5, 0.25, 1.75][(r % 4) as usize],
         // near-ties at the scale of the tolerance constants used inside the library (1e-10 for
-        // Louvain's gain comparison, 1e-7 for its default threshold): 1 + k * 0.4 * tol, so that
-        // values one or two steps apart are "equal within the tolerance" while values further
-        // apart are not (Louvain's undirected gain doubles the weight: one step there is 0.8 tol)
+        // Louvain's gain comparison, relative to terms of about 1..2 here; 1e-7 for its default
+        // threshold): 1 + k * 0.8 * tol, so that
+        // values one step apart are "equal within the tolerance" while values two steps apart
+        // are not (Louvain's undirected gain doubles both the weight and, since the tolerance is
+        // relative to the terms, the tolerance)
         // (the shape edges, r = 3, 6, 9, get k = 1, 2, 3)
-        10 => 1.0 + (((r / 3) % 8) as f64) * 0.4 * if (r / 24) % 2 == 1 { 1e-7 } else { 1e-10 },
+        10 => 1.0 + (((r / 3) % 8) as f64) * 0.8 * if (r / 24) % 2 == 1 { 1e-7 } else { 1e-10 },
         // mixed magnitudes in one graph: one weight in four is (k+1) * 2^-70, the others k/4. A tiny
         // weight added to a distance of order one is absorbed (d + w == d) although it is positive;
         // the sum of the tiny weights along any path stays below half an ulp of 0.25, so every
@@ -119,9 +121,46 @@ pub fn decode_weight(wmode: u8, r: u8) -> f64 {
                 ((r % 32) as f64 + 1.0) / 4.0
             }
         }
+        // amounts in the smallest unit of a currency: (k+1) * 2^60 (about 1e18): adding 1 to such a
+        // number does not change it
+        12 => ((r % 4) as f64 + 1.0) * (2.0f64).powi(60),
+        // non-dyadic weights of the order of 1e4 and 1e6 (prices, populations, byte counts)
+        13 => 10_007.3 + ((r % 32) as f64) * 1_013.7,
+        14 => 1_000_003.1 + ((r % 32) as f64) * 100_019.7,
         // signed weights (trust / distrust networks): sums can cancel exactly
         _ => [1.0, -1.0, 0.5, -0.5, 2.0, -2.0, 1.5, 1.0][(r % 8) as usize],
     }
+}
+
+/// Shape 13: a bundle of 2^k equally short routes and one bypass that ties with it. Node 0 is the
+/// source s, node 1 the sink x, node 2 the bypass node w; the other nodes form k = (n-3)/2 stages of
+/// two interchangeable nodes, consecutive stages completely connected, all with weight 1; s -> w
+/// has weight k and w -> x weight 1, exactly the length k + 1 of every route through the stages.
+/// w then carries one shortest s-x path out of 2^k + 1: shares of path counts far below the
+/// resolution of an f64 next to 1 (from 107 nodes on).
+pub fn bundle_with_bypass(n: usize) -> Vec<(usize, usize, f64)> {
+    let mut e = vec![];
+    if n < 5 {
+        return e;
+    }
+    let k = (n - 3) / 2;
+    let stage = |i: usize| [3 + 2 * i, 4 + 2 * i];
+    for a in stage(0) {
+        e.push((0, a, 1.0));
+    }
+    for i in 1..k {
+        for a in stage(i - 1) {
+            for b in stage(i) {
+                e.push((a, b, 1.0));
+            }
+        }
+    }
+    for a in stage(k - 1) {
+        e.push((a, 1, 1.0));
+    }
+    e.push((0, 2, k as f64));
+    e.push((2, 1, 1.0));
+    e
 }
 
 /// A long chain 0 - 1 - ... - (n-1) whose weights follow a slowly varying law of the position
@@ -173,7 +212,7 @@ pub fn dense_structured(n: usize, directed: bool, family: u64) -> NormGraph {
             edges.push((i, j, w));
         }
     }
-    NormGraph { directed, multi: false, loops: false, n, names: (0..n).map(|i| format!("r{:04}", (i * 389 + 7) % 1009)).collect(), order: (0..n).collect(), edges, weighted: true }
+    NormGraph { directed, multi: false, loops: false, n, names: (0..n).map(|i| format!("r{:04}", (i * 389 + 7) % 2003)).collect(), order: (0..n).collect(), edges, weighted: true }
 }
 
 /// structured edges mixed into a case
@@ -306,7 +345,7 @@ pub fn shape_edges(shape: u8, n: usize) -> Vec<(usize, usize)> {
     e
 }
 
-pub const N_SHAPES: u8 = 13;
+pub const N_SHAPES: u8 = 14;
 
 fn permutation(seed: u32, n: usize) -> Vec<usize> {
     let mut v: Vec<usize> = (0..n).collect();
@@ -367,6 +406,11 @@ impl GraphCase {
             }
             edges.push((i, j, w));
         };
+        if n > 0 && self.shape == 13 {
+            for (i, j, w) in bundle_with_bypass(n) {
+                push(i, j, if self.wmode == 0 { f64::NAN } else { w }, &mut edges);
+            }
+        }
         if n > 0 {
             for (k, (i, j)) in shape_edges(self.shape, n).into_iter().enumerate() {
                 // weights of shape edges: deterministic from position, tie-friendly
@@ -582,7 +626,7 @@ pub fn big_graph_strategy(kinds: &'static [u8], lo: u32, hi: u32, wmodes: &'stat
 /// cliques, disjoint cliques, 3-column grid, circulant) by a cycle once the graph has more than `max_n` nodes. (The API returns every shortest
 /// path, so such inputs need memory exponential in n; that is not a defect.)
 pub fn tame_path_counts(mut g: GraphCase, max_n: u8) -> GraphCase {
-    if g.n > max_n && matches!(g.shape, 4 | 5 | 6 | 9 | 10 | 12) {
+    if g.n > max_n && matches!(g.shape, 4 | 5 | 6 | 9 | 10 | 12 | 13) {
         g.shape = 2;
     }
     g
